@@ -99,6 +99,62 @@ func sampleProgram(r *lib.Rand) []byte {
 	return layout(r, toks, []int{styleCompact, stylePlain, styleWild, styleWild}[r.Intn(4)]).bytes()
 }
 
+// gotoShape: a small block-structured program of local declarations, labels, gotos and uses, over
+// three label names and four variable names, so that every arrangement of a jump relative to the
+// scopes of locals (forward, backward, into, out of a nested block, across a function) comes up.
+func gotoShape(r *lib.Rand) []byte {
+	var sb strings.Builder
+	var block func(depth int)
+	block = func(depth int) {
+		for k := r.Range(1, 5); k > 0; k-- {
+			c := r.Pick(3, 3, 3, 2, 2, 1, 1, 1, 1, 1)
+			if depth >= 3 && c >= 4 {
+				c = r.Intn(4)
+			}
+			switch c {
+			case 0:
+				fmt.Fprintf(&sb, "local v%d = %d\n", r.Intn(4), r.Intn(9))
+			case 1:
+				fmt.Fprintf(&sb, "goto l%d\n", r.Intn(3))
+			case 2:
+				fmt.Fprintf(&sb, "::l%d::%s", r.Intn(3), []string{"\n", " ", ";\n"}[r.Intn(3)])
+			case 3:
+				fmt.Fprintf(&sb, "v%d = v%d\n", r.Intn(4), r.Intn(4))
+			case 4:
+				sb.WriteString("do\n")
+				block(depth + 1)
+				sb.WriteString("end\n")
+			case 5:
+				fmt.Fprintf(&sb, "while v%d do\n", r.Intn(4))
+				block(depth + 1)
+				sb.WriteString("end\n")
+			case 6:
+				fmt.Fprintf(&sb, "if v%d then\n", r.Intn(4))
+				block(depth + 1)
+				if r.Bool() {
+					sb.WriteString("else\n")
+					block(depth + 1)
+				}
+				sb.WriteString("end\n")
+			case 7:
+				sb.WriteString("repeat\n")
+				block(depth + 1)
+				fmt.Fprintf(&sb, "until v%d\n", r.Intn(4))
+			case 8:
+				fmt.Fprintf(&sb, "local function f%d(v%d)\n", r.Intn(2), r.Intn(4))
+				block(depth + 1)
+				sb.WriteString("end\n")
+			case 9:
+				fmt.Fprintf(&sb, "for v%d = 1, 2 do\n", r.Intn(4))
+				block(depth + 1)
+				sb.WriteString("end\n")
+			}
+		}
+	}
+	block(0)
+	return []byte(sb.String())
+}
+
 func runMalformed(w *lib.Writer, r *lib.Rand, tier string) {
 	total, coqShare, ntrunc := 16000, 10, 12
 	if tier == "thorough" {
@@ -135,6 +191,11 @@ func runMalformed(w *lib.Writer, r *lib.Rand, tier string) {
 			pre = "local function f() " + pre + "end "
 		}
 		jobs = append(jobs, job{append([]byte(pre), src...), "dangling-gotos"})
+	}
+	// labels, gotos and local declarations in nested blocks: valid and invalid jumps (into the scope of
+	// a local, to a label that is not visible, duplicate labels ...) end in a function or a syntax error
+	for i := 0; i < total/25; i++ {
+		jobs = append(jobs, job{gotoShape(r.Fork()), "goto-shapes"})
 	}
 	for i := 0; i < ntrunc; i++ { // every truncation of a sample of programs
 		cr := r.Fork()
@@ -572,7 +633,7 @@ func advList(tier string) []advCase {
 		// more than 131072 jump labels in one flat function (label numbers must not wrap)
 		{"labels-and", 500}, {"labels-and", 32500}, {"labels-and", 33000}, {"labels-and", 66000},
 		{"labels-if", 40000}, {"labels-if", 44000}, {"labels-if", 90000}, {"labels-while", 30000}, {"labels-while", 50000},
-		// flat data tables: constants are looked up in a map since /repo (was a linear scan: 200000 distinct constants took 130 s)
+		// flat data tables: constants are looked up in a map since /repo c7c7b9c (was a linear scan: 200000 distinct constants took 130 s)
 		{"consttable-num", 1000}, {"consttable-num", 200000}, {"consttable-str", 200000},
 		{"do", 100000}, {"do", 500000}, // linear since /repo 950d344 (was quadratic: 100000 took a minute)
 		{"tables", 1000000}, // C08-3: kills the process
